@@ -384,6 +384,13 @@ func (mt *MetricTable) ApplyRules(rules MetricRules) *MetricTable {
 	applied := NewMetricTable(mt.maxTableSize, mt.metricPeriodStart)
 	applied.failedHarvests = mt.failedHarvests
 
+	// Every metric in mt has already been admitted under the table's limit
+	// (forced metrics may have pushed the count past it): renaming must not
+	// drop any of them, so the limit is lifted while the new table is filled.
+	if mt.count > applied.maxTableSize {
+		applied.maxTableSize = mt.count
+	}
+
 	for name, s := range mt.metrics {
 		_, out := rules.Apply(name)
 
@@ -394,6 +401,7 @@ func (mt *MetricTable) ApplyRules(rules MetricRules) *MetricTable {
 			applied.mergeMetric(nil, out, scope, metric)
 		}
 	}
+	applied.maxTableSize = mt.maxTableSize
 
 	return applied
 }
